@@ -166,6 +166,30 @@ def run_cases(ctx, name, header, case_terms, check_fn, shard=300, timeout=600):
         return None
     return results
 
+# ------------------------------------------------------------------ memory-layout independence
+def _flat(x):
+    import numpy as np, quaternion
+    if isinstance(x, (tuple, list)): return [v for y in x for v in _flat(y)]
+    if isinstance(x, dict): return []
+    if hasattr(x, 'toarray'): x = x.toarray()
+    a = np.asarray(x)
+    if a.dtype == np.quaternion: a = quaternion.as_float_array(a)
+    if a.dtype.kind in 'fciub': return [np.asarray(a, dtype=complex).ravel()]
+    return []
+def layout_sweep(ctx, qx, pid, name, fn, An, inp, rtol=1e-9):
+    """fn(An) must not depend on the memory layout of An (same values in Fortran order, as a transposed view, column-strided,
+    row-reversed view): an exception or a different answer is a violation with the layout as replay."""
+    import numpy as np
+    try: base = _flat(fn(An))
+    except Exception: return
+    for lname, Al in qx.layouts(An):
+        try: got = _flat(fn(Al))
+        except Exception as e:
+            ctx.violations.append({'sig': f'{pid}:memory-layout:{name}:raises', 'what': f'{name} raised {type(e).__name__} for a {lname} argument with the same values: {e}', 'input': dict(inp, layout=lname), 'observed': repr(e)[:200], 'expected': 'same answer as for the C-contiguous array', 'oracle': 'the same call on the C-contiguous array'}); continue
+        ok = len(got) == len(base) and all(g.shape == b.shape and np.allclose(g, b, rtol=rtol, atol=rtol * (1 + float(np.max(np.abs(b))) if b.size else 0.0), equal_nan=True) for g, b in zip(got, base))
+        if not ok: ctx.violations.append({'sig': f'{pid}:memory-layout:{name}', 'what': f'{name} gives a different answer for a {lname} argument with the same values', 'input': dict(inp, layout=lname), 'observed': '', 'expected': 'same answer as for the C-contiguous array', 'oracle': 'the same call on the C-contiguous array'})
+        ctx.count(('layout', name, lname), True)
+
 # ------------------------------------------------------------------ literals
 def zlit(x):
     x = int(x); return f'({x})' if x < 0 else str(x)
